@@ -305,6 +305,8 @@ func runC01(c *Ctx) {
 	}
 	r.Floor("R7", "comparisons with PRIVMSG/NOTICE/ACTION in the parser", n7, 2)
 
+	c.c01Accessors()
+
 	// ---- R5
 	var producer *ssa.Function
 	var sendOp ChanOp
